@@ -9,7 +9,7 @@ for c in sys.argv[1:]:
     p=props[c]
     open('/tmp/wt/%s.prop.txt'%c,'w').write("%s — %s\n\nStatement: %s\n\nQuantified over: %s\n\nAnchors in the code (what is meant to make it hold): %s\n" % (p['id'],p['title'],p['statement'],p['quantifier']['text'], json.dumps(p['anchors']['mechanism'],indent=1)))
     lines=[]
-    for d in sorted(glob.glob('/verif/seeded/S?-%s/'%c)):
+    for d in sorted(glob.glob('/verif/seeded/S*-%s/'%c)):
         m=json.load(open(d+'meta.json'))
         lines.append("- %s\n  (needs: %s)" % (m['summary'], m['needs']))
     open('/tmp/wt/%s.taken.txt'%c,'w').write("Already seeded by previous contributors for this property (do NOT repeat any of them or a close variant; pick a different mechanism, a different code location and a different trigger):\n"+"\n".join(lines)+"\n")
